@@ -201,7 +201,11 @@ def holder_roles(ctx) -> dict:
                     f = _self_field(t, me)
                     if f:
                         roles["flag"].add(f)
-    for m in info.methods.values():
+    # the pulling step: a coroutine method of the holder, or a module-level coroutine of its module whose first parameter is
+    # the holder (``await entry.tail.__anext__()``) - the same step, written as a function
+    outside = [u_ for u_ in info.module.units.values() if u_.cls is None and u_.parent is None and u_.kind == "coroutine"
+               and u_.params() and u_.params()[0].annotation is not None and info.name in norm(u_.params()[0].annotation)]
+    for m in list(info.methods.values()) + outside:
         if m.kind != "coroutine" or "classmethod" in m.decorators or "staticmethod" in m.decorators or not m.param_names():
             continue
         me = m.param_names()[0]
@@ -398,9 +402,9 @@ def _eval_method(ctx, cls_short: str, mname: str, outcome: str, reverse: bool, a
     if m is None:
         return None
     params = m.param_names()
-    results = Machine(cfg_of(m), _HolderOps(outcome if a == "A" else {"LT": "GT", "GT": "LT", "EQ": "EQ"}[outcome], reverse,
-                                            holder_roles(ctx))
-                      ).run({params[0]: "A", params[1]: "B"})
+    from .common import make_resolver
+    ops = _HolderOps(outcome if a == "A" else {"LT": "GT", "GT": "LT", "EQ": "EQ"}[outcome], reverse, holder_roles(ctx))
+    results = Machine(cfg_of(m), ops, resolver=make_resolver(ctx, m, ops)).run({params[0]: "A", params[1]: "B"})
     vals = {oc.env.get("@return") for oc in results if oc.terminal.kind == "exit"}
     if len(vals) != 1:
         return UNKNOWN
@@ -673,8 +677,9 @@ def r01_4(ctx) -> None:
                 continue
             ctx.count("source_loops")
             inner = it
-            if isinstance(it, ast.Call) and norm(it.func).split(".")[-1] == "enumerate" and it.args:
-                inner = it.args[0]
+            if isinstance(it, ast.Call) and it.args and ctx.pkg.resolve_expr_global(u.module, it.func).qual.split(".")[-1] == "enumerate" \
+                    and ctx.pkg.resolve_expr_global(u.module, it.func).kind in ("builtin", "stdlib"):
+                inner = it.args[0]  # (the builtin enumerate under whatever name it was imported)
             if isinstance(inner, ast.Subscript) and isinstance(inner.slice, ast.Slice) and (
                     inner.slice.step is None or (isinstance(inner.slice.step, ast.Constant) and isinstance(inner.slice.step.value, int)
                                                  and inner.slice.step.value > 0)):
